@@ -340,7 +340,13 @@ func (ty *ObjectType) Merge(other ExprType) ExprType {
 		for n, l := range ty.Props {
 			props[n] = l
 		}
-		for n, r := range other.Props {
+		names := make([]string, 0, len(other.Props))
+		for n := range other.Props {
+			names = append(names, n)
+		}
+		sort.Strings(names) // Merge is not associative. Fold in fixed order to make the result deterministic
+		for _, n := range names {
+			r := other.Props[n]
 			if l, ok := props[n]; ok {
 				props[n] = l.Merge(r)
 			} else {
